@@ -76,6 +76,54 @@ fn pausable_example(cfg: &Cfg, rep: &mut Report, h: u64) {
 }
 
 // ------------------------------------------------------------------ pause + lists on tokens
+/// Entry points that carry an owner guard AND a pause guard (both orders): both must hold.
+fn stacked_guards(cfg: &Cfg, rep: &mut Report, h: u64) {
+    let mut rng = Rng::for_history(cfg.seed, "C16", cfg.shard, h);
+    rep.begin_history(h);
+    let w = World::new(100, 16);
+    let e = &w.env;
+    let u = w.accounts(2);
+    let c = e.register(crate::contracts::misc::StackedGuards, (u[0].clone(),));
+    let mut paused = false;
+    for step in 0..60 {
+        let k = rng.below(10);
+        if k < 3 {
+            let f = if paused { "unpause" } else { "pause" };
+            e.mock_all_auths();
+            invoke::<()>(e, &c, f, args!(e)).expect("pause toggle of the wrapper");
+            paused = !paused;
+            rep.op(format!("#{step} {f}"));
+            continue;
+        }
+        let f = *rng.pick(&["owner_then_pause", "pause_then_owner", "owner_then_paused"]);
+        let who = if rng.chance(2, 3) { 0 } else { 1 };
+        let signed = rng.chance(5, 6);
+        if signed {
+            w.auth(&[(u[who].clone(), Inv::new(&c, f, args!(e)))]);
+        } else {
+            w.no_auth();
+        }
+        let before: u32 = invoke(e, &c, "count", args!(e)).unwrap();
+        if signed {
+            w.auth(&[(u[who].clone(), Inv::new(&c, f, args!(e)))]);
+        }
+        let got: Result<Val, Fail> = invoke(e, &c, f, args!(e));
+        let after: u32 = invoke(e, &c, "count", args!(e)).unwrap();
+        rep.evaluations += 1;
+        let pause_ok = if f == "owner_then_paused" { paused } else { !paused };
+        let want = pause_ok && who == 0 && signed;
+        rep.op(format!("#{step} {f} by {} signed={signed} paused={paused} -> {}", if who == 0 { "owner" } else { "stranger" }, tag(&got)));
+        rep.case(format!("stacked/{f}/paused={paused}/owner={}/signed={signed}/{}", who == 0, tag(&got)));
+        if got.is_ok() {
+            rep.check("pause", pause_ok, &format!("C16/pause/stacked-guards/{f}/ran-in-the-wrong-pause-state"), || format!("{f} ran with paused={paused}"));
+            rep.check("auth", who == 0 && signed, &format!("C16/auth/stacked-guards/{f}/ran-without-owner"), || format!("{f} ran for {} signed={signed}", if who == 0 { "the owner" } else { "a stranger" }));
+        }
+        rep.check("ref", got.is_ok() == want, &format!("C16/ref/stacked-guards/{f}/outcome"), || format!("{f} by {} signed={signed} paused={paused}: expected ok={want}, got {got:?}", if who == 0 { "owner" } else { "stranger" }));
+        rep.check("res", after == before + if got.is_ok() { 1 } else { 0 }, &format!("C16/res/stacked-guards/{f}/body-ran"), || format!("counter {before} -> {after} with {got:?}"));
+    }
+    rep.end_history();
+}
+
 fn token_history(cfg: &Cfg, rep: &mut Report, fl: Flavour, h: u64, steps: usize) {
     let mut rng = Rng::for_history(cfg.seed, "C16", cfg.shard, h);
     rep.begin_history(h);
@@ -94,6 +142,17 @@ fn token_history(cfg: &Cfg, rep: &mut Report, fl: Flavour, h: u64, steps: usize)
     rep.op(format!("deploy {} ledger={}", fl.name(), w.ledger()));
     let mut pre = tok.observe();
     for step in 0..steps {
+        // time passes: a gate that was closed stays closed however long nobody looks at it (list entries
+        // and the pause flag do not lapse), allowances expire as they should
+        if rng.chance(1, 10) {
+            let t = w.ledger() + *rng.pick(&[1u32, 17, 40, 600, 5000]);
+            w.set_ledger(t);
+            rep.op(format!("#{step} ledger -> {t}"));
+            rep.count("ledger_moves");
+            pre = tok.observe();
+            let ms = m.state(t);
+            rep.check("ref", pre == ms, &format!("C16/ref/{}/ledger-move/state", fl.name()), || format!("after moving to ledger {t}: observed {pre:?}, model {ms:?}"));
+        }
         let cur = w.ledger();
         let max_live = e.ledger().max_live_until_ledger();
         // gate toggles
@@ -450,7 +509,7 @@ fn real_upgrade(cfg: &Cfg, rep: &mut Report, h: u64) {
 }
 
 pub fn run(cfg: &Cfg, rep: &mut Report) {
-    rep.rule = "(a) pausable and fungible-pausable examples: histories of every pausable entry point with pause/unpause by owner and strangers, signed or not; (b) allow/block lists on wrappers wiring all five overridden entry points and on the two examples: random histories with list toggles plus an exhaustive sweep entry point x assignment of list status to (from, to, spender); (c) fungible-capped example: mints around cap-supply and i128 overflow for caps {0,1,1000,2^70,MAX-1,MAX}; (d) migration: natively registered UpgradeableMigratable contract (flag set as upgrade sets it) and the v1 example upgraded by the working tree's macro to the repository's prebuilt v2 wasm. Distinct case = (mechanism, entry point, gate/list assignment vector, outcome).".into();
+    rep.rule = "(a) pausable and fungible-pausable examples: histories of every pausable entry point with pause/unpause by owner and strangers, signed or not; a wrapper whose entry points carry an owner guard and a pause guard stacked in both orders; (b) allow/block lists on wrappers wiring all five overridden entry points and on the two examples: random histories with list toggles and ledger jumps of up to 5000 plus an exhaustive sweep entry point x assignment of list status to (from, to, spender); (c) fungible-capped example: mints around cap-supply and i128 overflow for caps {0,1,1000,2^70,MAX-1,MAX}; (d) migration: natively registered UpgradeableMigratable contract (flag set as upgrade sets it) and the v1 example upgraded by the working tree's macro to the repository's prebuilt v2 wasm. Distinct case = (mechanism, entry point, gate/list assignment vector, outcome).".into();
     let nh = cfg.pick(12u64, 80);
     for k in 0..nh {
         if cfg.runs(k) {
@@ -467,6 +526,9 @@ pub fn run(cfg: &Cfg, rep: &mut Report) {
         }
         if cfg.runs(4000 + k) {
             migration(cfg, rep, 4000 + k);
+        }
+        if cfg.runs(6000 + k) {
+            stacked_guards(cfg, rep, 6000 + k);
         }
     }
     list_sweep(cfg, rep);
